@@ -1122,6 +1122,8 @@ class Ex:
         if isinstance(f, VClass):
             return self.instantiate(f.ci, args, kwargs, fr)
         if isinstance(f, VLib):
+            args = [self.resolve(a) for a in args]
+            kwargs = {k: self.resolve(v) for k, v in kwargs.items()}
             h = self.cfg.lib_overrides.get(f.name)
             if h is not None:
                 return h(self, f, args, kwargs, fr)
